@@ -132,8 +132,8 @@ class pkcs7(blockiterator):
         return m+(bytes([q])*q)
     # remove padding:
     def remove(self,c):
-        q = c[-1]
-        if q>self.blocklen or (c[-q:]!=bytes([q])*q):
+        q = c[-1] if len(c)>0 else 0
+        if q==0 or q>self.blocklen or (c[-q:]!=bytes([q])*q):
             raise PaddingError(c)
         else:
             return c[:-q]
@@ -154,8 +154,8 @@ class X923(blockiterator):
         return r
     # remove padding:
     def remove(self,c):
-        q = c[-1]
-        if q>self.blocklen or (c[-q:-1]!=b'\0'*(q-1)):
+        q = c[-1] if len(c)>0 else 0
+        if q==0 or q>self.blocklen or (c[-q:-1]!=b'\0'*(q-1)):
             raise PaddingError(c)
         else:
             return c[:-q]
